@@ -1,7 +1,23 @@
 PROPERTY = "G09"
 ENTRY = {
-        "text": "placeholder",
+        "text": "Growth item: system composition.  AdGuardHomeCore.tla composes AccessCore, ClientsCore, RewritesCore, DnsPipelineCore / RuleEngine and IgnoreAnonCore (instantiated unedited) over one "
+                "shared state record: persistent-client registry, protection / filtering switches, blocked services, custom rules, legacy rewrites, access lists, query-log configuration (enabled, "
+                "ignored names, anonymisation), statistics configuration, the query log as a sequence and the statistics counters.  One action per admin endpoint family (clients add / update / delete, "
+                "access set, set_rules, rewrite add / delete, blocked_services, protection, filtering config, querylog config, stats config, querylog_clear, stats_reset) and Query(address, ClientID, "
+                "transport, name, type), whose reply, upstream exchange, log entry and statistics increment are derived from the composed modules.  AdGuardHome.tla is checked by TLC over ALL histories "
+                "of at most 3 operations (<= 2 admin calls, <= 2 queries) from 4 base configurations (58 admin calls x 48 queries; 2.0M states) with the statement as invariants written without the "
+                "composed operators: every served, not ignored query is in the log exactly once with its client and a reason matching the response; statistics totals = counted queries, blocked = those "
+                "with a blocking reason; a request excluded by the access lists is neither resolved nor logged nor counted; every query in every reached configuration obeys the documented sentence of "
+                "each setting.  Binding: the universe TLC prints is turned into long seeded histories covering every (admin call, query) pair (thorough) that are executed on the really booted server "
+                "(real initContextClients, setupDNSFilteringConf, registerControlHandlers, initDNS, startDNSServer; admin calls through the real mux; queries over real UDP / TCP sockets from loopback "
+                "source addresses, DoH + ClientID through the mux; every second system with a 6-entry log buffer so that the log is served from file and memory); a Go driver adds random histories "
+                "over a larger universe; after every step reply, upstream questions, GET /control/querylog and GET /control/stats are recorded and TraceAdGuardHome.tla (same operators) accepts or "
+                "rejects the line.  A rejected line counts only when the whole history is rejected at the same step again on a freshly booted system.",
         "design_ref": "DESIGN.md section 5 (AdGuardHome.tla); notes/G09.md",
-        "note": "placeholder",
-        "technique": "placeholder",
+        "note": "Trusted: TLC, conc()/abs() of zz_verif_g09_test.go, the mock upstream, the sub-specifications as validated by C01/C03/C04/C06/C08.  Documentation silent => nondeterministic: "
+                "log entries and top_* items whose name / client is ignored now may be missing, client_info.name is the owner at read or at write time, top_queried_domains with or without blocked "
+                "queries, top_clients compared per anonymised address while anonymisation has been on.  No pause, schedules, DHCP, runtime clients, rule lists, safe search / browsing, restart.  "
+                "TLC -coverage is unusable on the nested instances (OOM): vacuity is checked by a probe of every transition out of the initial states.  The enumerated bounded histories are "
+                "model-checked; what is replayed are planned paths over the same universe (exhaustive: false).  No findings on the unchanged tree; 14 wiring mutations caught.",
+        "technique": "TLA+ composition model-checked by TLC over all bounded histories; planned pair-covering walks + random histories on the fully wired server; TLC trace validation with fresh-boot reproduction",
     }
